@@ -204,15 +204,22 @@ class Scanner:
                     if lt is None:
                         continue
                     total = False
-                    for node in walk_local(lt):
-                        if isinstance(node, ast.If) and "self.location == other.location" in txt(node.test) \
-                                and f"isinstance(other, {owner.name})" in txt(node.test):
-                            for ret in node.body:
-                                if isinstance(ret, ast.Return) and isinstance(ret.value, ast.Compare) \
-                                        and "self.product" in txt(ret.value.left) \
-                                        and "other.product" in txt(ret.value.comparators[0]) \
-                                        and "core_location" in txt(ret.value.left):
-                                    total = True
+                    from ..cfg import CFG as _CFG
+                    from ..flow import facts_nnf, inline_reaching, nnf_literals, path_facts
+                    lcfg = _CFG(lt)
+                    for ret in [n for n in walk_local(lt) if isinstance(n, ast.Return) and n.value is not None]:
+                        value = inline_reaching(lcfg, ret, ret.value)
+                        if not (isinstance(value, ast.Compare) and len(value.ops) == 1 and isinstance(value.ops[0], (ast.Lt, ast.Gt))):
+                            continue
+                        left, right = txt(value.left), txt(value.comparators[0])
+                        if isinstance(value.ops[0], ast.Gt):
+                            left, right = right, left
+                        if not ("self.product" in left and "other.product" in right and "core_location" in left):
+                            continue
+                        lits = nnf_literals(facts_nnf(path_facts(lcfg, ret)))
+                        if (f"isinstance(other, {owner.name})", True) in lits and \
+                                (("self.location == other.location", True) in lits or ("other.location == self.location", True) in lits):
+                            total = True
                     if total:
                         result.add(info.qual)
                     break   # only the first __lt__ in the MRO is the one in force
